@@ -2,14 +2,27 @@ from rtamt.syntax.ast.visitor.ltl.ast_visitor import LtlAstVisitor
 from rtamt.exception.exception import RTAMTException
 from rtamt.explanation.ltl.discrete_time.explanations import *
 
+class Explanations(dict):
+    """Explanations (lists of intervals) per formula name. A name that is explained more than
+    once - a variable or sub-formula that occurs several times in the specification -
+    accumulates the union of its intervals instead of keeping only the last ones."""
+
+    def __setitem__(self, name, intervals):
+        intervals = [list(interval) for interval in intervals]
+        if name in self:
+            intervals = interval_union(self[name] + intervals)
+        dict.__setitem__(self, name, intervals)
+
+
 class LTLExplainer(LtlAstVisitor):
 
     def __init__(self):
         super().__init__()
-        self.explanations = dict()
+        self.explanations = Explanations()
 
     def explain(self, spec):
         self.spec = spec
+        self.explanations = Explanations()
         for spec in self.spec.specs:
             top_signal = self.spec.results[spec]
             if top_signal[0] < 0:
